@@ -117,7 +117,17 @@ def delete_case(case, d):
     open(os.path.join(outside, 'odir', 'inner'), 'wb').write(b'inner')
     base = os.path.join(d, 'target')
     tk = case['target']
-    if tk in ('Array', 'RaggedArray'):
+    if tk in ('stale_ragged', 'stale_plaindir'):
+        # an Array object whose directory was deleted meanwhile; the path now holds something else
+        obj = make('Array', base, meta=True)
+        darr.delete_array(base)
+        if tk == 'stale_ragged':
+            make('RaggedArray', base, meta=True)
+        else:
+            os.makedirs(base)
+            for nm in ('README.txt', 'arraydescription.json', 'metadata.json', 'notes.txt'):
+                open(os.path.join(base, nm), 'w').write('user text in ' + nm)
+    elif tk in ('Array', 'RaggedArray'):
         obj = make(tk, base, meta=case.get('meta', True))
     elif tk == 'plaindir':
         os.makedirs(base); open(os.path.join(base, 'x.txt'), 'w').write('x'); obj = None
@@ -134,7 +144,9 @@ def delete_case(case, d):
     before_out = snapshot(outside)
     fn = darr.delete_array if case['func'] == 'delete_array' else darr.delete_raggedarray
     form = case['form']
-    if form == 'object' and obj is not None and ((case['func'] == 'delete_array') == (tk == 'Array')):
+    if tk.startswith('stale_'):
+        arg = obj
+    elif form == 'object' and obj is not None and ((case['func'] == 'delete_array') == (tk == 'Array')):
         if case.get('mode') == 'r':
             obj.accessmode = 'r'
         arg = obj
